@@ -57,6 +57,13 @@ func main() {
 		maxPaths := fs.Int("maxpaths", 0, "path bound")
 		fs.Parse(os.Args[2:])
 		os.Exit(cmdRun(fs.Args(), *trace, *workers, *mapOrder, *maxPaths))
+	case "e2e-regen":
+		bad, out := e2eRegen(nil)
+		fmt.Print(out)
+		if bad {
+			os.Exit(1)
+		}
+		os.Exit(0)
 	case "replay":
 		if len(os.Args) < 4 {
 			fmt.Fprintln(os.Stderr, "usage: symgo replay <property> <path>")
@@ -289,6 +296,7 @@ func cmdCheck(prop, tier string) int {
 		return h%11 == 0 || zero
 	}
 	corpusViolations, rcCorpus := 0, 0
+	regenValidated := false
 	type job struct {
 		sp   *HarnessSpec
 		eng  *sym.Engine
@@ -361,6 +369,14 @@ func cmdCheck(prop, tier string) int {
 		}
 		results = append(results, res)
 		printResult(res, &sym.SolverStats{})
+		if sp.Replay == "e2e-regen" && !regenValidated {
+			regenValidated = true
+			if bad, out := e2eRegen(nil); bad {
+				inconcl = append(inconcl, "ENCODER-MISMATCH (e2e validation) "+sp.Name+": the real binary does not regenerate as on an empty path: "+clip(out, 300))
+			} else {
+				validated++
+			}
+		}
 		if sp.Replay == "e2e-cli" {
 			for i, vs := range res.Validation {
 				if i >= 3 {
